@@ -341,6 +341,81 @@ class Fragments(SubCheck):
     unit_test = Faults1.unit_test
 
 
+def parse_result(svg, d, p=None):
+    """(status, canonical segment list) of parsing d into a fresh (or the given) Path"""
+    if p is None:
+        p = svg.Path()
+    try:
+        p.parse(d)
+        status = "ok"
+    except ValueError:
+        status = "ValueError"
+    except Exception as e:  # noqa
+        status = type(e).__name__
+    return status, [repr(x) for x in p]
+
+
+class Sequels(SubCheck):
+    """parse histories of length 2: every ordered pair (first, second) of a string alphabet made of complete strings and
+    of strings failing in every command's operand positions (with and without a pending close).  Each string is a
+    separate Path().parse call on a fresh Path; the second result must be what the same string gives after a
+    conforming first string (nothing may survive a parse - failed or not - outside the Path it was called on), and
+    the full single-string oracles are applied to it as well."""
+    name = "sequels"
+    case_cpu_limit = 20.0
+
+    def __init__(self, svg, tier):
+        self.svg = svg
+        al = ["M0,0 L1,1 z", "M3,-2 L1,1 Q2,2 3,0", "", "M1,1 L", "L", "z", "M0,0 A 1 1 z", "M 1,2 v Z", "M1,1 L2,2 L 5", "M1,1 l"]
+        letters = pc.LETTERS if tier == "thorough" else "LlHvCsQtAaMZ"
+        for c in letters:
+            ops = OPERANDS[c.upper()].replace(",", " ").split()
+            al.append("M3,-2 %s" % c)
+            al.append("M3,-2 %s z" % c)
+            al.append(c)
+            if ops:
+                al.append("M3,-2 %s %s" % (c, " ".join(ops[:-1])))
+                al.append("M3,-2 %s %s z" % (c, " ".join(ops[:-1])))
+                al.append("M3,-2 %s %s L" % (c, " ".join(ops)))
+        seen = set()
+        self.al = [x for x in al if not (x in seen or seen.add(x))]
+        self.space = Product(self.al, self.al)
+        self.bounds = dict(strings=len(self.al), history=2)
+
+    def size(self):
+        return len(self.space)
+
+    def case(self, i):
+        a, b = self.space[i]
+        return {"first": a, "d": b}
+
+    def run(self, case):
+        out = Outcome()
+        svg = self.svg
+        a, b = case["first"], case["d"]
+        parse_result(svg, "M0,0 L1,1 z")
+        base = parse_result(svg, b)
+        out.transitions += 2
+        parse_result(svg, a)
+        got = parse_result(svg, b)
+        out.transitions += 2
+        out.traces += 1
+        if got != base:
+            out.fail("parsing %r gives %r after an unrelated Path().parse(%r), but %r after a conforming one" % (b, got, a, base),
+                     list(base), list(got), kind="sequel", after=a, d=b, fault="sequel")
+        # the same on one Path object: a failed parse followed by further data continues from the retained prefix
+        status, ref = check_string(svg, b, out, dict(d=b, after=a, fault="sequel"))
+        out.outcome = (status, got[0] == "ok", len(got[1]))
+        out.nontrivial.append((a, b))
+        out.states.append((a, got[0]))
+        return out
+
+    def unit_test(self, case):
+        return ("def test_replay():\n    from svgelements import Path\n    def r(d):\n        p = Path()\n        try:\n"
+                "            p.parse(d)\n        except ValueError:\n            pass\n        return [repr(s) for s in p]\n"
+                "    r('M0,0 L1,1 z'); base = r(%r); r(%r); assert r(%r) == base\n" % (case["d"], case["first"], case["d"]))
+
+
 class _Counter(object):
     def __init__(self):
         self.calls = 0
@@ -437,7 +512,7 @@ class LongInputs(SubCheck):
 
 
 def build(tier, seed, svg):
-    subs = [Faults1(svg, tier, seed), Fragments(svg), LongInputs(svg, tier)]
+    subs = [Faults1(svg, tier, seed), Fragments(svg), Sequels(svg, tier), LongInputs(svg, tier)]
     if tier == "thorough":
         subs.append(Faults2(svg, tier, seed))
     return subs
